@@ -2,6 +2,9 @@ mod body;
 mod closures;
 mod crash;
 mod engines;
+mod expert;
+mod mapeng;
+mod xplan;
 mod exec;
 mod gen;
 mod model;
